@@ -38,6 +38,7 @@ impl IoLog {
             TapAction::Short(n, _) => Some(*n),
             _ => None,
         };
+        let faulted = faulted && !matches!(action, TapAction::Defer);
         let dest_existed = match &ev.op {
             IoOp::Rename { to } => to.exists(),
             _ => false,
